@@ -45,7 +45,11 @@ def proof_stage(rep, prop, extra_targets=()):
     return discharged == len(theorems)
 
 
-def correspondence(rep, tag, binary, cases, label, nontrivial=None, oracle=None, known=None, impl_out=None):
+VM_SAMPLE = 120
+
+
+def correspondence(rep, tag, binary, cases, label, nontrivial=None, oracle=None, known=None, impl_out=None,
+                   vm_sample=None):
     """Runs the implementation and the model on the cases and compares.
     oracle(case, impl_result) -> None | str evaluates the property's own
     predicate on the implementation's output (the search for a failing input).
@@ -77,9 +81,18 @@ def correspondence(rep, tag, binary, cases, label, nontrivial=None, oracle=None,
         c, r, msg = first_fail
         rep.violation({"kind": "oracle", "what": msg, "case_kind": label, "case": c, "impl_result": r,
                        "failing_cases": n_oracle_fail})
-    mism = sfv.run_model_diff("%s_%s" % (rep.prop, tag), cases, impl)
+    # every case goes through the extracted model (OCaml); an evenly spread subsample is also
+    # evaluated inside Coq by vm_compute, which cross-checks the extraction and the OCaml driver
+    mism, _ = sfv.run_model_diff_ocaml(cases, impl)
+    nvm = min(len(cases), vm_sample if vm_sample is not None else VM_SAMPLE)
+    step = max(1, len(cases) // max(1, nvm))
+    sub = list(range(0, len(cases), step))[:nvm]
+    vm_mism = sfv.run_model_diff("%s_%s" % (rep.prop, tag), [cases[i] for i in sub], [impl[i] for i in sub]) if sub else []
+    mism = sorted(set(mism) | set(sub[i] for i in vm_mism))
     t2 = time.time()
-    cor = rep.cov["correspondence"].setdefault(label, {"cases": 0, "disagreements": 0, "impl_s": 0, "model_s": 0})
+    cor = rep.cov["correspondence"].setdefault(label, {"cases": 0, "disagreements": 0, "impl_s": 0, "model_s": 0,
+                                                       "in_coq_vm_compute": 0})
+    cor["in_coq_vm_compute"] += len(sub)
     cor["cases"] += len(cases)
     cor["disagreements"] += len(mism)
     cor["impl_s"] = round(cor["impl_s"] + t1 - t0, 2)
